@@ -6,7 +6,11 @@ VARIABLES vs, s, D, er
 Variants == {v \in [kind : {"unit", "t1", "n1", "t2"}, own : {"none", "general", "bare", "text"}, vr : BOOLEAN] :
                 /\ (v.kind = "unit" => v.own # "bare")
                 /\ (v.vr => v.kind = "unit" /\ v.own = "none" /\ D # "Debug")}   \* where a casing shows
-Init == vs = <<>> /\ s \in SharedForms /\ D \in Traits /\ er \in {"none", "lower"} /\ (D = "Debug" => er = "none")
+\* three-variant enums (beyond MaxVariants): every kind of "own" side by side, an attributed variant BETWEEN two others
+FV(k, o) == [kind |-> k, own |-> o, vr |-> FALSE]
+WideEnums == {<<FV("t1", "none"), FV("t1", "general"), FV("t1", "none")>>, <<FV("unit", "none"), FV("t1", "bare"), FV("n1", "none")>>,
+              <<FV("t1", "text"), FV("unit", "text"), FV("t2", "general")>>}
+Init == vs \in {<<>>} \cup WideEnums /\ s \in SharedForms /\ D \in Traits /\ er \in {"none", "lower"} /\ (D = "Debug" => er = "none")
 Add  == Len(vs) < MaxVariants /\ \E v \in Variants : vs' = Append(vs, v) /\ UNCHANGED <<s, D, er>>
 Next == Add
 Spec == Init /\ [][Next]_<<vs, s, D, er>>
